@@ -2,7 +2,11 @@
 
 package kubeeventsmanager
 
-import "sort"
+import (
+	"sort"
+
+	corev1 "k8s.io/api/core/v1"
+)
 
 // Verification-only accessors (build tag "verif").
 
@@ -35,4 +39,11 @@ func (m *monitor) VerifInformers() []VerifInformer {
 		return dyn[i].Name < dyn[j].Name
 	})
 	return append(res, dyn...)
+}
+
+// VerifNamespaceAdded delivers a namespace Added event to the namespace informer (label-selected namespaces).
+func (m *monitor) VerifNamespaceAdded(ns *corev1.Namespace) {
+	if m.NamespaceInformer != nil {
+		m.NamespaceInformer.OnAdd(ns, false)
+	}
 }
